@@ -193,3 +193,6 @@ def check(run):
     c07.check_cacg(ck)
     c07.check_watson(ck)          # cWMM is in the property's scope: the E-step density is the one whose normaliser the M-step inverts
     c07.close_terms(ck)
+    # the M-step of the Gaussian components is the maximiser of the auxiliary function: the weighted mean and the weighted scatter divided by the mass, nothing added
+    c08.check_mass_rank(run, A)
+    c08.check_gaussian_dispatch(run, A)
